@@ -372,3 +372,68 @@ MUTANTS = [
     M("benign-mutable-node-via-local", NMF,
       "        return n.init_from_cap(cap)\n", "        node = n.init_from_cap(cap)\n        return node\n", None),
 ]
+
+# ---- round 7: refactors seeded for other properties (C16-I, C19-I, C18-I), done faithfully, must leave C41.9 silent;
+# the snippets are the owners' (one source of truth for the refactored shape)
+from . import C16 as _S16, C18 as _S18, C19 as _S19      # noqa: E402
+
+UF = "src/allmydata/uri.py"
+_TABLE_EDITS = [(NMF, _S19.NM_DIRNODE, _S19.NM_DIRNODE_FROM_CAP), (NMF, _S19.NM_CHAIN, _S19.NM_LOOP)]
+_LIVE_BY_SI = ("        live = _LIVE_MUTABLE.get(cap.get_storage_index())\n"
+               "        if live is not None:\n            return live\n"
+               "        node = n.init_from_cap(cap)\n"
+               "        _LIVE_MUTABLE[cap.get_storage_index()] = node\n        return node\n")
+
+MUTANTS += [
+    M("benign-uri-from-string-table-driven", UF, _S16.FS_CHAIN, _S16._fs_table(), None,
+      note="C16-I done faithfully: uri.from_string walks a module-level constant table of (prefix, class, ..) rows; a "
+           "constant table is not a memory of earlier calls"),
+    M("benign-node-factory-table", NMF, _S19.NM_IMPORT, _S19.nm_table("ReadonlyMDMFDirectoryURI"), None,
+      edits=_TABLE_EDITS,
+      note="C19-I done faithfully: _create_from_single_cap dispatches through getattr(self, <name out of a constant table>)"),
+    M("benign-node-factory-dict-by-type", NMF, _S19.NM_IMPORT, _S19.NM_DICT % "ReadonlyMDMFDirectoryURI", None,
+      edits=[(NMF, _S19.NM_CHAIN, _S19.NM_DICT_DISPATCH)]),
+    M("factory-table-mutable-nodes-shared-by-storage-index", NMF, _S19.NM_IMPORT,
+      _S19.nm_table("ReadonlyMDMFDirectoryURI").replace(
+          "@implementer(INodeMaker)\n", "_LIVE_MUTABLE = weakref.WeakValueDictionary()\n\n@implementer(INodeMaker)\n"),
+      "C41.9", edits=_TABLE_EDITS + [(NMF, "        return n.init_from_cap(cap)\n", _LIVE_BY_SI)],
+      note="the table-driven factory, and the method it reaches through getattr answers with the live node of the slot: "
+           "the walk must follow the table's method names"),
+    M("factory-table-plain-dict-filled-by-storage-index", NMF, _S19.NM_IMPORT,
+      _S19.nm_table("ReadonlyMDMFDirectoryURI").replace(
+          "@implementer(INodeMaker)\n", "_LIVE_MUTABLE = {}\n\n@implementer(INodeMaker)\n"),
+      "C41.9", edits=_TABLE_EDITS + [(NMF, "        return n.init_from_cap(cap)\n", _LIVE_BY_SI)],
+      note="a module-level dict display that somebody fills is state, not a constant table"),
+    M("factory-table-rows-appended-at-runtime", NMF, _S19.NM_IMPORT,
+      _S19.nm_table("ReadonlyMDMFDirectoryURI").replace(
+          "@implementer(INodeMaker)\n",
+          "def register_node_factory(name, classes):\n    _NODE_FACTORIES.insert(0, (name, classes))\n\n\n"
+          "@implementer(INodeMaker)\n"),
+      "ANALYSIS-ERROR", edits=_TABLE_EDITS,
+      note="the table is extended at run time: no longer a constant, which methods make the node cannot be told"),
+    M("benign-create-from-cap-split-into-helpers", NMF, _S18._CFC_OLD, _S18._CFC_SPLIT, None,
+      note="C18-I done faithfully: the memo key made by a @staticmethod helper handed (writecap, readcap)"),
+    M("split-memokey-helper-prefers-readcap", NMF, _S18._CFC_OLD,
+      _S18._CFC_SPLIT.replace(_S18._SIG_OK, "    def _memokey(readcap, writecap, deep_immutable):\n"), "C41.9",
+      note="seeded C18-I: the helper's parameters are declared in the other order, so the key is readcap-first and the "
+           "writeable node is found by the read cap"),
+    M("split-memokey-helper-keyed-by-readcap-body", NMF, _S18._CFC_OLD,
+      _S18._CFC_SPLIT.replace("        return prefix + (writecap or readcap)\n",
+                              "        return prefix + (readcap or writecap)\n"), "C41.9"),
+    M("split-uncached-helper-remembers-by-readcap", NMF, _S18._CFC_OLD,
+      _S18._CFC_SPLIT.replace(
+          "        cap = uri.from_string(writecap or readcap, deep_immutable=deep_immutable,\n",
+          "        known = self._by_readcap.get(readcap or writecap)\n"
+          "        if known is not None:\n            return known\n"
+          "        cap = uri.from_string(writecap or readcap, deep_immutable=deep_immutable,\n"), "C41.9",
+      edits=[(NMF, _NM_INIT, _NM_INIT + "        self._by_readcap = weakref.WeakValueDictionary()\n")],
+      note="a second memo inside the extracted helper, looked up readcap-first"),
+    M("benign-split-uncached-helper-remembers-by-full-cap", NMF, _S18._CFC_OLD,
+      _S18._CFC_SPLIT.replace(
+          "        cap = uri.from_string(writecap or readcap, deep_immutable=deep_immutable,\n",
+          "        known = self._by_cap.get((deep_immutable, writecap or readcap))\n"
+          "        if known is not None:\n            return known\n"
+          "        cap = uri.from_string(writecap or readcap, deep_immutable=deep_immutable,\n"), None,
+      edits=[(NMF, _NM_INIT, _NM_INIT + "        self._by_cap = weakref.WeakValueDictionary()\n")],
+      note="the same memo keyed by the cap the node is made from: the slot kinds are carried into the helper"),
+]
